@@ -13,7 +13,7 @@ from ..q import FA, attr_mutating_calls, attr_stores, call_name, guard_facts, is
 from ..resolve import resolver
 from ..rules import pair
 
-TECHNIQUE = "R-SIB over the step lists of the three populate implementations, R-WRITERS on the hand-out indices, R-ORDER/R-DOM on the bounds gate, mask-before-use typestate on the INS draw functions, R-CALLERS classification of every likelihood evaluation site by the gate that precedes it, R-PAIR row-alignment of parallel arrays"
+TECHNIQUE = "R-SIB over the step lists of the three populate implementations, R-WRITERS on the hand-out indices, R-ORDER/R-DOM on the bounds gate, mask-before-use typestate on the INS draw functions, R-CALLERS classification of every likelihood evaluation site by the gate that precedes it, R-PAIR row-alignment of parallel arrays; R-DERIVED stale-derived-state rule over the class table; must-pass on the latent draw preparation"
 
 POPULATORS = [tables.ANALYTIC, tables.REJECTION, tables.FP]
 PAIR_MODULES = ("nessai.proposal.flowproposal", "nessai.proposal.augmented", "nessai.proposal.importance", "nessai.samplers.importancesampler", "nessai.proposal.rejection", "nessai.proposal.analytic", "nessai.experimental.proposal.clustering", "nessai.utils.structures")
@@ -362,7 +362,7 @@ def _rebinds(fa, name, a, b):
 
 
 CLAIM = {
-    "text": "Decides the gating and hand-out discipline every pool relies on: the three populate implementations (analytic, rejection, flow) each store the pool, its log-prior from model.batch_evaluate_log_prior of the pool's own rows (directly or through a helper whose body is checked), its log-likelihood from model.batch_evaluate_log_likelihood(self.samples) and a fresh permutation of exactly the pool rows before setting populated, and never touch the pool afterwards; indices are only assigned empty / a permutation and consumed by pop() in draw(), which returns the row at the popped index and marks an exhausted pool unpopulated; flow-generated points returned in physical space are exactly the outputs of check_prior_bounds (single in_bounds mask); INS draws pass an in_unit_hypercube mask, then the prior evaluation, then a finite-prior mask before they are appended / returned; every likelihood-evaluation site outside Model is in a reviewed table naming the gate in front of it; and (R-PAIR) arrays describing the same rows are always masked / indexed together - which found and repaired an IndexError in FlowProposal.backward_pass. The three rejection steps have the documented shape (weights = log prior - log proposal density of the same points, normalised by the (running) maximum, one uniform per point, pool = accepted rows); the prime-space prior bounds - the only prior gate of the x'-prior path - are recomputed after every write of the rescaling bounds; pools are stored in canonical field order.",
+    "text": "Decides the gating and hand-out discipline every pool relies on: the three populate implementations (analytic, rejection, flow) each store the pool, its log-prior from model.batch_evaluate_log_prior of the pool's own rows (directly or through a helper whose body is checked), its log-likelihood from model.batch_evaluate_log_likelihood(self.samples) and a fresh permutation of exactly the pool rows before setting populated, and never touch the pool afterwards; indices are only assigned empty / a permutation and consumed by pop() in draw(), which returns the row at the popped index and marks an exhausted pool unpopulated; flow-generated points returned in physical space are exactly the outputs of check_prior_bounds (single in_bounds mask); INS draws pass an in_unit_hypercube mask, then the prior evaluation, then a finite-prior mask before they are appended / returned; every likelihood-evaluation site outside Model is in a reviewed table naming the gate in front of it; and (R-PAIR) arrays describing the same rows are always masked / indexed together - which found and repaired an IndexError in FlowProposal.backward_pass. The three rejection steps have the documented shape (weights = log prior - log proposal density of the same points, normalised by the (running) maximum, one uniform per point, pool = accepted rows); the prime-space prior bounds - the only prior gate of the x'-prior path - are recomputed after every write of the rescaling bounds; pools are stored in canonical field order. Constructor-derived state never goes stale (R-DERIVED: for every class whose __init__ derives an attribute from another and never recomputes it, no later store to the input on a receiver of that type), the latent draw function of a radius-truncated prior is built from the current radius on every path and after the radius of this population was stored (C09.9); positional views are combined only with scalars (with C01.7).",
     "note": "Does not decide that the pool is distributed as the prior restricted to the contour (statistical), the exact pool size, or latent-contour membership (numeric). Row classes are inferred from a table of length-preserving callees (sa/rules/pair.py); arrays of unrelated origin are assumed compatible.",
 }
 
